@@ -8,6 +8,7 @@ mod c10;
 mod c14;
 mod c15;
 mod c18;
+mod c20;
 mod c17reg;
 mod stream_mock;
 mod c11;
@@ -28,6 +29,7 @@ fn main() {
         "c14" => c14::run(&cases),
         "c15" => c15::run(&cases),
         "c18" => c18::run(&cases),
+        "c20" => c20::run(&cases),
         "c12" | "c13" | "c17" | "ua" => ua::run(&cases),
         "c08" => c08::run(&cases),
         "c09" => c09::run(&cases),
